@@ -90,6 +90,13 @@ macro_rules! impl_range_increment_inclusive_match_arms {
             let from_val = *from.borrow();
             let step_val = *step.borrow();
             let to_val = *to.borrow();
+            // an end before the start is an empty range (the subtraction below would wrap for unsigned kinds)
+            if to_val < from_val {
+              return Err(MechError::new(
+                EmptyRangeError{},
+                None
+              ).with_compiler_loc());
+            }
             let diff = to_val - from_val;
             if diff < $ty::zero() {
               return Err(MechError::new(
